@@ -257,6 +257,9 @@ def hyp_shrink(seed: int, strategy, check: Callable[[Any], Outcome], signature: 
 
 def _worker(args) -> Tuple[str, Any]:
     modname, jobname, kwargs, seed, tier = args
+    if "_env" in kwargs and os.environ.get("VPBT_SUBJOB") != "1":
+        return _run_in_fresh_interpreter(args)
+    kwargs = {k: v for k, v in kwargs.items() if k != "_env"}
     try:
         os.environ.setdefault("PYTHONHASHSEED", "0")
         import faulthandler
@@ -279,6 +282,26 @@ def _worker(args) -> Tuple[str, Any]:
         except Exception:
             pass
         return ("err", f"job {jobname} {kwargs}:\n" + traceback.format_exc())
+
+
+def _run_in_fresh_interpreter(args) -> Tuple[str, Any]:
+    """Run one job in a new interpreter with extra environment (backend selection happens
+    at import time in the library, so a forked worker cannot switch it)."""
+    import pickle
+    import subprocess
+
+    modname, jobname, kwargs, seed, tier = args
+    env = dict(os.environ, PYTHONHASHSEED="0", VPBT_SUBJOB="1")
+    env.update(kwargs["_env"])
+    env["PYTHONPATH"] = VERIF_DIR + os.pathsep + env.get("PYTHONPATH", "")
+    try:
+        p = subprocess.run([sys.executable, "-m", "vpbt.subjob"], input=pickle.dumps(args), stdout=subprocess.PIPE, env=env, cwd=VERIF_DIR,
+                           timeout=JOB_WALL_LIMIT[tier] + 60)
+        if p.returncode != 0 or not p.stdout:
+            return ("err", f"sub-interpreter job {jobname} {kwargs} exited {p.returncode}")
+        return pickle.loads(p.stdout)
+    except BaseException:
+        return ("err", f"sub-interpreter job {jobname} {kwargs}:\n" + traceback.format_exc())
 
 
 def _kw(kwargs) -> str:
